@@ -288,17 +288,26 @@ func (s *SecureChannel) dispatcher() {
 				debug.Printf("uasc %d/%d: recv %T", s.c.ID(), msg.RequestID, msg.body)
 			}
 
+			// HACK
+			// The lock is taken before the handler is popped: a requester
+			// that gives up (timeout, context) either still finds its
+			// handler, or it gives up after the lock was taken, so that the
+			// unlock in open() always comes after the lock and the dispatcher
+			// cannot be left waiting for a requester that is already gone.
+			_, isOpenResp := msg.Response().(*ua.OpenSecureChannelResponse)
+			if isOpenResp {
+				s.rcvLocker.lock()
+			}
+
 			simhook.Yield("uasc.dispatcher.beforePop")
 			ch, ok := s.popHandler(msg.RequestID)
 
 			if !ok {
 				debug.Printf("uasc %d/%d: no handler for %T", s.c.ID(), msg.RequestID, msg.body)
+				if isOpenResp {
+					s.rcvLocker.unlock()
+				}
 				continue
-			}
-
-			// HACK
-			if _, ok := msg.Response().(*ua.OpenSecureChannelResponse); ok {
-				s.rcvLocker.lock()
 			}
 
 			debug.Printf("uasc %d/%d: sending %T to handler", s.c.ID(), msg.RequestID, msg.body)
